@@ -144,7 +144,8 @@ class LogicalClock:
 class World:
     """one engine + file DB + observer; executes op tokens"""
 
-    def __init__(self, reset="rollback", tag="w", poolclass="QueuePool", listener="none", engine_opts="none"):
+    def __init__(self, reset="rollback", tag="w", poolclass="QueuePool", listener="none", engine_opts="none",
+                 recycle=None, pre_ping=False):
         import sqlalchemy as sa
         from sqlalchemy import pool as sapool
         import sqlalchemy.pool.base as pbase
@@ -172,6 +173,11 @@ class World:
         pbase.time = self.clock
 
         def creator():
+            k = self.plan.take("n")
+            if k == "d":
+                raise sqlite3.ProgrammingError("Cannot operate on a closed database.")
+            if k == "e":
+                raise sqlite3.OperationalError("injected fault: unable to open database file")
             raw = sqlite3.connect(self.path, autocommit=False, timeout=0, check_same_thread=False)
             p = ProxyConnection(raw, self.nrid, self.plan)
             self.nrid += 1
@@ -180,6 +186,10 @@ class World:
         ror = {"rollback": "rollback", "commit": "commit", "none": None}[reset]
         self.poolclass = poolclass
         kw = {"pool_size": 5, "max_overflow": 5} if poolclass == "QueuePool" else {}
+        if recycle is not None:
+            kw["pool_recycle"] = recycle
+        if pre_ping:
+            kw["pool_pre_ping"] = True
         self.engine = sa.create_engine(
             "sqlite://",
             creator=creator,
@@ -468,9 +478,10 @@ class World:
             return "OBSERVE-ERROR:%s/0000/N/N/N/-/-/x/x/-/0" % type(e).__name__
 
 
-def run_ops(ops, reset="rollback", tag="w", poolclass="QueuePool", listener="none", engine_opts="none"):
+def run_ops(ops, reset="rollback", tag="w", poolclass="QueuePool", listener="none", engine_opts="none",
+            recycle=None, pre_ping=False):
     """-> list of observation records (strings), one per op"""
-    w = World(reset, tag, poolclass, listener, engine_opts)
+    w = World(reset, tag, poolclass, listener, engine_opts, recycle, pre_ping)
     try:
         return [w.step(t) for t in ops]
     finally:
@@ -484,7 +495,11 @@ def parse_record(rec):
     return dict(zip(FIELDS, rec.split("/")))
 
 
-def driver_line(ops, reset="rollback", listener="none", engine_opts="none"):
+def driver_line(ops, reset="rollback", listener="none", engine_opts="none", recycle=None):
+    if recycle is not None:
+        assert engine_opts == "none"
+        lis = "none" if listener == "passive" else listener
+        return "txn runc %s %s %d %s" % (reset, lis, recycle, ";".join(ops) if ops else "-")
     if engine_opts != "none":
         assert listener in ("none", "passive")
         return "txn rune %s %s %s" % (reset, engine_opts, ";".join(ops) if ops else "-")
